@@ -172,7 +172,7 @@ def instantiate(ops, rng, hid, pid, psidx, pinned=None):
         chlay = pinned["ch"] if "ch" in pinned else rng.choice([4, 5])
         nch = 4
     app = pinned.get("app") or (rng.choice(ENC_APPS) if enc else 0)
-    sig = pinned["sig"] if "sig" in pinned else rng.choice([1, 1, 2, 2, 3, 4, 4, 5, 6, 6, 0])
+    sig = pinned["sig"] if "sig" in pinned else rng.choice([1, 1, 2, 2, 3, 4, 4, 5, 6, 6, 0, 8, 9, 10, 10, 11] if enc else [1, 1, 2, 2, 3, 4, 4, 5, 6, 6, 0])
     fd = pinned.get("fd") or (rng.choice([1, 2, 4, 8, 8, 8, 8, 16, 24]) if kind == "e" else 8 if rng.random() < 0.7 else rng.choice([2, 4, 16]))
     maxb = 4000 if kind == "E" else 1500
     # settings every created object gets right after creation
@@ -526,6 +526,9 @@ def run_check(ctx, pid):
     vf.log("[%s] replay + judge %.0fs (%d jobs)" % (pid, time.time() - t2, len(jobs)))
     for job, name, out, rc, err, ips, res in results:
         vname, cap, k, part = job
+        if rc != 0 and len(ctx.violations) >= 3:
+            ctx.notes["further_aborted_chunks"] = ctx.notes.get("further_aborted_chunks", 0) + 1
+            continue
         if rc != 0:
             # R4: run it once more before reporting
             A = [l for l in open(ips[0]).read().split("\n") if l and not l.startswith("P ")]
@@ -539,6 +542,10 @@ def run_check(ctx, pid):
             continue
         acc, rej, tr = res
         events += vf.count_lines(out)
+        if not acc and len(ctx.violations) >= 3:
+            # three rejections have been repeated and reported in full; further rejected chunks are only counted
+            ctx.notes["further_rejected_chunks"] = ctx.notes.get("further_rejected_chunks", 0) + 1
+            continue
         if not acc:
             reject(ctx, pid, usecfg, exes[vname], name, out, ips, rej, plines,
                    {"OPUS_VERIF_ARCH_CAP": str(cap)} if cap is not None else None)
@@ -609,7 +616,17 @@ def reject(ctx, pid, usecfg, exe, name, out, ips, rej, plines, env):
         raise vf.Infra("%s: rejection at %s line %s did not repeat (second run: %s)" % (pid, name, rej, "accepted" if acc2 else "line %s" % rej2))
     what = ("EquivOutputsEqual" if pid == "C12" else "format relations") + \
            " rejected by ObjectsTrace at %s line %s (history %s): %s" % (name, rej, hid, (ev or "")[:900])
-    ctx.violation(what, replay_text=minimal_replay(ips, hid))
+    # the rejected history alone (both passes) is the replay file when it reproduces the rejection, else the whole chunk
+    txt = minimal_replay(ips, hid)
+    if hid is not None:
+        a, _, b = txt.partition("#PASS B\n")
+        pl = [l for l in a.split("\n") if l.startswith("P ")]
+        out3, rc3, err3, ips3 = run_chunk(exe, ctx, name + "_min", pl, [l for l in a.split("\n") if l and not l.startswith("P ")],
+                                          [l for l in b.split("\n") if l and not l.startswith("P ")], env)
+        acc3 = rc3 == 0 and vf.validate_seq(ctx, "ObjectsTrace", usecfg, out3, "%s %s minimal" % (pid, name), heap="3g", timeout=2400)[0]
+        if acc3:
+            txt = replay_text(*ips)
+    ctx.violation(what, replay_text=txt)
 
 
 def minimal_replay(ips, hid):
